@@ -26,6 +26,14 @@ CHECKS = {
             "Default bodies run through the real delegation helper; nested required calls must hit the same counters, ordered slots and responses as the model's shared state predicts, mixed with direct calls; &self receivers in this engine."),
     "C16": ("model_checking", "3.3, 6/C16", "Mock.tla real-function frames (re-entrant scripts) enumerated by TLC and replayed through the functions registered with unmock_with",
             "applies_unmocked() and partial fall-through resolve to exactly one invocation of the registered function with the caller's argument, nested calls evaluated by the same mock (recursion depth <= 2), CannotUnmock where none is registered."),
+    "C09": ("model_checking", "3.4, 6/C09", "Lifecycle.tla (teardown statement by statement; invariants ClonesNeverVerify, VerifyPanicsIff, ReportAgrees, VerifiedAtMostOnce) checked by TLC; every event sequence replayed on real instances over two threads",
+            "All lifecycle event sequences up to the bound over original, clones, helper clones and lent instances on two OS threads; each operation's panic/silence/exit code compared with the model."),
+    "C11": ("model_checking", "3.4, 6/C11", "Lifecycle.tla invariant NoDoublePanic (with sensitivity runs for a misplaced guard) by TLC; every crash-point sequence executed for real, a process abort is the violation",
+            "Panics of six origins x instance topologies x met/unmet expectations x threads are enumerated by TLC and executed; a second panic while unwinding kills the harness process, which the driver attributes to the exact behaviour through a progress file; after caught panics the sequence continues and later verdicts are compared."),
+    "C13": ("model_checking", "3.4, 6/C13", "Lifecycle.tla value-chain part (ChainsDisjoint, LiveValsNotGone, StoredWhileShared) by TLC; borrow epochs re-read after every push and drop counters compared after every operation",
+            "Sequences of make_ref epochs / make_mut / lending / delegation / teardown: every reference keeps designating its own value while borrowed, values are destroyed exactly when the model says (once, not before the owner is verified or dropped, earlier only by make_mut). Sequential part; concurrent pushes belong to the scheduler engine."),
+    "C18": ("model_checking", "3.2, 3.3, 6/C18", "Assemble.tla PermInvariant by TLC; metamorphic replay of each behaviour under admissible clause reorderings, over clones, on twin mocks, and for two generic instantiations",
+            "One expectation from the model for the whole equivalence class: TLC chooses configuration, admissible permutation and history; the real mock is built in the permuted order and driven (a) directly, (b) with calls routed over clones, (c) in lock-step on two independent mocks."),
 }
 
 NOT_YET = {
@@ -40,7 +48,7 @@ def main():
             "thorough_cmd": "bin/check %s --tier thorough" % pid,
             "evidence_file": "evidence/%s.json" % pid,
             "replay_cmd_template": "bin/check %s --replay {path}" % pid,
-            "engine": "tla-replay",
+            "engine": "tla-lifecycle" if pid in ("C09", "C11", "C13") else "tla-replay",
             "level_claimed": {"category": cat, "text": text, "design_ref": "DESIGN.md section " + ref},
             "level_note": MC_NOTE,
             "technique": tech,
@@ -60,8 +68,11 @@ def main():
             "add_only": True,
         },
         "engines": [
+            {"name": "tla-lifecycle", "path": "tla/Lifecycle.tla, tla/MC_Life.tla, harness/src/life.rs, lib/engines.py",
+             "serves_properties": ["C09", "C11", "C13"],
+             "kind_free_text": "TLC enumerates lifecycle event sequences (instances, threads, unwinding, value chains); the harness executes them on real instances across two OS threads; process aborts are detected by the driver"},
             {"name": "tla-replay", "path": "tla/Mock.tla, tla/MC_Mock.tla, harness/src/replay.rs, lib/engines.py",
-             "serves_properties": sorted(CHECKS.keys()),
+             "serves_properties": sorted(k for k in CHECKS.keys() if k not in ("C09", "C11", "C13")),
              "kind_free_text": "TLC enumerates complete behaviours of the specification (configuration x history) and prints them; the Rust harness builds the real mock through the real builder API and compares every step"},
         ],
         "checks": checks,
